@@ -67,6 +67,10 @@ func (sm *pipelineStateMachine) GetStats() []*models.StageStats {
 
 // executeStage tracks stage start execution state.
 func (sm *pipelineStateMachine) executeStage(parentStageID, stageID string, stage stagepkg.Stage) {
+	// NOTE: ask the stage for its identifier before the stage is tracked as pending, if it panics here
+	// nothing is registered yet and the panic is handled as the failure of the caller(parent stage/pipeline).
+	identifier := stage.Identifier()
+
 	sm.mutex.Lock()
 	defer sm.mutex.Unlock()
 
@@ -81,7 +85,7 @@ func (sm *pipelineStateMachine) executeStage(parentStageID, stageID string, stag
 	ts.startTime = time.Now()
 	ts.stats = &models.StageStats{
 		Start:      ts.startTime.UnixNano(),
-		Identifier: stage.Identifier(),
+		Identifier: identifier,
 		State:      ts.state.String(),
 	}
 	if parentStageID == "" {
